@@ -109,6 +109,22 @@ impl<'t, 'a> LintGen<'t, 'a> {
     }
 
     fn assignment_like_impl(&mut self) -> Stmt {
+        if self.t.chance(1, 14) {
+            // a plain `let` with a list of values (a runtime error when executed): never a constant assignment,
+            // whatever its first element is
+            let dest = self.target();
+            let first = match self.t.pick(4) {
+                0 => strlit("a"),
+                1 => num(5.0),
+                2 => strlit(*self.t.choose(STRS)),
+                _ => num(0.5),
+            };
+            let mut value = vec![first];
+            for _ in 0..1 + self.t.pick(2) {
+                value.push(if self.t.chance(1, 2) { num(2.0) } else { strlit("b") });
+            }
+            return Stmt::Assign { dest, value, op: None };
+        }
         match self.t.weighted(&[28, 10, 12, 8, 8, 16, 6, 6, 6]) {
             0 => {
                 let dest = self.target();
